@@ -2,7 +2,9 @@
 THEOREMS_TIED = ["Rustic.Props.C15.append_only_no_removal", "Rustic.Props.C15.destructive_refused_before_storage",
                  "Rustic.Props.C15.dry_run_no_ops", "Rustic.Props.C15.expected_agrees_with_table",
                  "Rustic.Props.C15.table_covers_api", "Rustic.Props.C15.table_rows_exist", "Rustic.Props.C15.dry_flags_covered",
-                 "Rustic.Props.C15.every_dry_flag_has_effective_twin", "Rustic.Props.C15.append_only_left_only_by_config"]
+                 "Rustic.Props.C15.every_dry_flag_has_effective_twin", "Rustic.Props.C15.append_only_left_only_by_config",
+                 "Rustic.Props.C15.expected_rejected_config_agrees", "Rustic.Props.C15.rejected_config_change_keeps_every_guard",
+                 "Rustic.Props.C15.handle_flag_is_table_flag"]
 
 TRUSTED = [
     "hand-written command table lean/Rustic/Model/CommandTable.lean: WHAT each row may write/remove and where it is refused is read off repository.rs, "
@@ -18,6 +20,10 @@ TRUSTED = [
     "byte-identical after every command)",
 ]
 ASSUMPTIONS = [
+    "the table has ONE append-only flag per repository: the guards read the in-memory config of the handle they are called on, and handle_flag_is_table_flag "
+    "(over the config model Rustic.Config.applyConfigH, tied by C18's apply/seq/seq1 channels and by `c15 hnd`) shows that flag to be the table's; `aox` re-opens "
+    "the repository before every command, `hnd` keeps the handle a config change was applied to for the next command (a command consumes its handle: "
+    "to_indexed*(self)), so handles that outlive a command are not exercised",
     "in-memory backends, no local cache; hot/cold pairs are two recorded in-memory stores (crash/fault interleavings of hot/cold belong to C16)",
     "operations that exist only in the CLI (`forget --prune`, `merge --delete`) are compositions of the library operations in the table; `merge --delete` is "
     "exercised as merge_snapshots followed by delete_snapshots",
@@ -27,7 +33,11 @@ ASSUMPTIONS = [
     "append-only repository replaces the config (and so can clear the flag) without any guard: the table has that row and the traffic check confirms it (token `reinit`)",
     "on damaged setups (all data packs lost before the flag was set) the observation is coarse (refused|ran + kinds without snapshot writes); the oracles are not",
 ]
-RULE = ("ops from harness/src/c15.rs (VERIF_SEED): every command token once on a freshly append-only repository holding two snapshots, on four setups (plain, hot/cold, "
+RULE = ("ops from harness/src/c15.rs (VERIF_SEED): ONE-handle histories (`hnd`): append-only repository -> apply_config(set_append_only(false) + an option value rejected "
+        "inside ConfigOptions::apply; all 9 rejectable options: version, chunker parameter, compression, tree/data pack size and size limit > u32, min/max tolerate "
+        "percent) -> each of 11 destructive commands on the same handle (plain: every option x every command; hot/cold, damaged, damaged hot/cold: two options per "
+        "command), rejected set_append_only(true) / other options on armed and disarmed handles, accepted off/on changes followed by destructive commands on the "
+        "same handle, 120 (thorough 1500) random one-handle histories; then every command token once on a freshly append-only repository holding two snapshots, on four setups (plain, hot/cold, "
         "damaged = every data pack lost so that both snapshots need repair, damaged hot/cold); the allowed path of every destructive command (append-only switched "
         "off, and switched off and on again); random sequences of 2..7 commands over 46 tokens (backup new/same/dry, forget, prune variants, prune_plan, repair "
         "index/snapshots with and without delete/dry-run/read-all, rewrite snapshots/trees with and without forget/dry-run/tree-changing exclude, merge with and "
@@ -38,9 +48,12 @@ RULE = ("ops from harness/src/c15.rs (VERIF_SEED): every command token once on a
 EXPLANATION = ("Theorems (over the command table, for plain and hot/cold repositories): on an append-only repository no command issues a removal of snapshot/index/pack; "
                "every command that can remove such files is refused before any storage operation; a dry-run flag means no operation at all; along any history of "
                "conforming commands every protected file survives while the flag is on; the flag can only be cleared by apply_config(set_append_only=false) or by "
-               "init_with_config over the repository; the harness' expectations agree with the table; the table classifies exactly the public methods of Repository in "
+               "init_with_config over the repository; a refused command changes nothing, a config change rejected by a validation (alone or together with "
+               "set_append_only(false)) is refused in every state and leaves the outcome of every command as it was (rejected_config_change_keeps_every_guard), and the "
+               "table's flag is the in-memory flag of the handle in the config model of apply_config (handle_flag_is_table_flag: Err => in-memory config unchanged); the harness' expectations agree with the table; the table classifies exactly the public methods of Repository in "
                "the current source and every dry-run flag of the current source, and every dry-run row has a scenario (also on hot/cold) whose non-dry twin really "
                "writes/removes. Correspondence: result and kinds of storage operations of the real commands equal the table's, on both stores of hot/cold pairs; "
+               "a refused config change leaves the handle's in-memory config as it was (`hnd`/`aox`: observed through repo.config() after every refused apply_config); "
                "oracles: pre-existing protected files byte-identical in every store after every command on an append-only repository, refused command => empty op log, "
                "dry-run => every store byte-identical, read-only methods => empty op log.")
 
